@@ -40,6 +40,7 @@ type Engine struct {
 	gnnCache      map[string]bool
 	atomicInvs    map[string]*AtomicInv
 	fieldCons     []*FieldConstraint
+	predicates    map[string]*Predicate
 	fieldConByKey map[string]*FieldConstraint
 }
 
@@ -286,6 +287,12 @@ func (e *Engine) addContractFile(cf *ContractFile) {
 		e.ghosts[g.Name] = g
 	}
 	e.lemmas = append(e.lemmas, cf.Lemmas...)
+	for _, pr := range cf.Predicates {
+		if e.predicates == nil {
+			e.predicates = map[string]*Predicate{}
+		}
+		e.predicates[pr.Name] = pr
+	}
 	for _, fc := range cf.FieldCons {
 		e.fieldCons = append(e.fieldCons, fc)
 	}
